@@ -24,6 +24,9 @@ type Case struct {
 	NilKey  bool       `json:"nil_key,omitempty"` // slice level: hand the empty key to the merger as nil (what table readers produce)
 	W       tbl.WOpts  `json:"w"`
 	Loaders []string   `json:"loaders,omitempty"`
+	// Nest = [lo, hi): kind super only: the tables lo..hi-1 are first stacked into an inner SuperSSTableReader,
+	// which then takes their place in the outer stack (a stacked reader is itself an SSTableReaderI).
+	Nest []int `json:"nest,omitempty"`
 }
 
 func Gen() *rapid.Generator[Case] {
@@ -57,6 +60,20 @@ func Gen() *rapid.Generator[Case] {
 			}
 		}
 		c.NilKey = rapid.Bool().Draw(t, "nilkey")
+		if c.Kind == "super" && nt >= 2 && rapid.IntRange(0, 2).Draw(t, "nested") == 0 {
+			lo := rapid.IntRange(0, nt-2).Draw(t, "nestLo")
+			hi := rapid.IntRange(lo+2, nt).Draw(t, "nestHi")
+			c.Nest = []int{lo, hi}
+			// a stack omits tombstoned keys from its scans but not from Get, so as a "table" of an outer stack it is only
+			// well defined without tombstones: the nested tables hold live, non-empty values only
+			for ti := lo; ti < hi; ti++ {
+				for i := range c.Tables[ti] {
+					if len(c.Tables[ti][i].V.Bytes()) == 0 {
+						c.Tables[ti][i].V = gen.Blob{Lit: []byte{byte(ti + 1)}}
+					}
+				}
+			}
+		}
 		if c.Level == "disk" {
 			c.W = tbl.WOptsGen().Draw(t, "w")
 			c.W.Simple = false
@@ -302,6 +319,13 @@ func Prop(c Case, x *h.Ctx) *h.Violation {
 
 	switch c.Kind {
 	case "super":
+		if len(c.Nest) == 2 && 0 <= c.Nest[0] && c.Nest[0] < c.Nest[1] && c.Nest[1] <= len(readers) && noEmptyValues(c.Tables[c.Nest[0]:c.Nest[1]]) {
+			x.Label("nested-stack")
+			inner := sstables.NewSuperSSTableReader(append([]sstables.SSTableReaderI{}, readers[c.Nest[0]:c.Nest[1]]...), cmp)
+			nested := append([]sstables.SSTableReaderI{}, readers[:c.Nest[0]]...)
+			nested = append(nested, inner)
+			readers = append(nested, readers[c.Nest[1]:]...)
+		}
 		s := sstables.NewSuperSSTableReader(readers, cmp)
 		probes := gen.Probes(bytesOf(keys))
 		if len(probes) > 30 {
@@ -475,4 +499,15 @@ func thin(ps [][]byte, max int) [][]byte {
 		out = append(out, ps[i])
 	}
 	return out
+}
+
+func noEmptyValues(ts [][]tbl.KV) bool {
+	for _, t := range ts {
+		for _, kv := range t {
+			if len(kv.V.Bytes()) == 0 {
+				return false
+			}
+		}
+	}
+	return true
 }
